@@ -309,3 +309,24 @@ def root_name(expr, funcnode, depth=6):
         else:
             break
     return canon(e)
+
+
+_pos_cache = {}
+
+
+def source_pos(funcnode):
+    """pos(node) -> position of `node` in source (pre-order) order inside `funcnode`.  Use this, not line numbers, to ask which of two
+    statements comes first: statements inlined back from an extracted helper keep the helper's line numbers."""
+    r = _pos_cache.get(id(funcnode))
+    if r is None or r[0] is not funcnode:
+        seq = {}
+
+        def number(n):
+            seq[id(n)] = len(seq)
+            for ch in ast.iter_child_nodes(n):
+                number(ch)
+        number(funcnode)
+        r = (funcnode, seq)
+        _pos_cache[id(funcnode)] = r
+    seq = r[1]
+    return lambda node: seq.get(id(node), 10 ** 9)
